@@ -6,8 +6,8 @@ import time
 import multiprocessing as mp
 import z3
 
-Z3_TIMEOUT_MS = int(os.environ.get("PYVC_Z3_MS", "20000"))
-CVC5_TIMEOUT_S = int(os.environ.get("PYVC_CVC5_S", "20"))
+Z3_TIMEOUT_MS = int(os.environ.get("PYVC_Z3_MS", "15000"))
+CVC5_TIMEOUT_S = int(os.environ.get("PYVC_CVC5_S", "10"))
 CVC5 = "/usr/bin/cvc5"
 
 
@@ -79,7 +79,7 @@ def _solve(job):
         for attempt, params in enumerate(({}, {"smt.mbqi": False}, {"smt.ematching": True, "smt.mbqi": True,
                                                                       "smt.random_seed": 7})):
             s = z3.Solver()
-            s.set("timeout", z3_ms if attempt == 0 else max(2000, z3_ms // 2))
+            s.set("timeout", z3_ms if attempt == 0 else max(2000, z3_ms // 3))
             for k, v in params.items():
                 try:
                     s.set(k, v)
@@ -201,7 +201,7 @@ def discharge(obls, procs=None, z3_ms=None, use_cvc5=True):
             by_name[nm] = (ob, len(parts))
         ob._parts = []
     if jobs:
-        hard = (z3_ms * 2) // 1000 + CVC5_TIMEOUT_S + 10
+        hard = (z3_ms * 5) // 3000 + CVC5_TIMEOUT_S + 10
         results = _run_jobs(jobs, procs, hard)
         for r in results:
             ob, nparts = by_name[r["name"]]
